@@ -291,7 +291,8 @@ theorem unauth_history_inert_raw (P : Prims) (ufrag pwd : Bytes) (s : St) (evs :
     · simp only [List.map_cons, hrun, List.foldl_cons, List.filter_cons, hu, Bool.not_false, ↓reduceIte]
       exact ih _ (by rw [hstep_webrtc]; exact hw) hes
 
-/-- what a keepalive tick can do: it looks only at state / mode / `now − last_received` / thresholds; it can
+/-- what a keepalive tick can do (the first five conjuncts are the frame of the model's `tick` — true by its
+definition, listed so that the statement is complete; the content is in the last three): it looks only at state / mode / `now − last_received` / thresholds; it can
 move only a Connected or Disconnected WebRTC transport, and only to Connected, Disconnected or Failed; it
 never touches candidates, pair, nomination or socket; it registers at most its own transaction id. -/
 theorem tick_effects (s : St) (tx : Bytes) :
